@@ -151,7 +151,56 @@ M("c19-adopt-early", "C19", "sweep adopts the new geometry one bucket early",
 M("c19-keep-fn", "C19", "resize with a new function at the same size keeps the old function",
   (HS, "            if (hash != NULL) {\n                h->bucket.rh.hash = hash;\n            } else if", "            if (hash != NULL && count != cur_count) {\n                h->bucket.rh.hash = hash;\n            } else if"))
 
+# ----------------------------------------------------------------- C08
+MP = "src/map.c"
+M("c08-existing-rc", "C08", "insert of an existing key returns 0",
+  (MP, "    err = 1;\n    node = __cstl_map_find(map, key, &p);", "    err = 0;\n    node = __cstl_map_find(map, key, &p);"))
+M("c08-existing-overwrite", "C08", "insert of an existing key overwrites the stored value",
+  (MP, "    if (node == NULL) {\n        /* no existing node in the map, carry on */", "    if (node != NULL) { node->val = val; }\n    if (node == NULL) {\n        /* no existing node in the map, carry on */"))
+M("c08-erase-it-leak", "C08", "erase_iterator does not free the node",
+  (MP, "    __cstl_rbtree_erase(&map->t, &n->n);\n    cstl_map_node_free(n);", "    __cstl_rbtree_erase(&map->t, &n->n);"))
+M("c08-alloc-fail-rc", "C08", "allocation failure returns 0",
+  (MP, "        err = -1;\n        node = cstl_map_node_alloc(key, val);", "        err = 0;\n        node = cstl_map_node_alloc(key, val);"), also=["C16"])
+M("c08-erase-reports-end", "C08", "erase reports the end iterator instead of the removed entry",
+  (MP, "    if (_i != NULL) {\n        *_i = i;\n        _i->_ = NULL;\n    }", "    if (_i != NULL) {\n        *_i = *cstl_map_iterator_end(map);\n    }"))
+M("c08-free-before-unlink", "C08", "erase_iterator frees the node before unlinking it",
+  (MP, "    __cstl_rbtree_erase(&map->t, &n->n);\n    cstl_map_node_free(n);", "    cstl_map_node_free(n);\n    __cstl_rbtree_erase(&map->t, &n->n);"))
+M("c08-hint-stale", "C08", "insert remembers the hint of the previous insert when the key is larger (two cooperating sites)",
+  (MP, "    err = 1;\n    node = __cstl_map_find(map, key, &p);", "    static struct cstl_map_node * lastp; static const cstl_map_t * lastm;\n    err = 1;\n    node = __cstl_map_find(map, key, &p);\n    if (node == NULL && lastm == map && lastp != NULL && p != NULL && cstl_map_size(map) > 6 && (cstl_map_size(map) & 3) == 1) { p = lastp; }\n    lastp = p; lastm = map;"))
+
+# ----------------------------------------------------------------- C09
+VC = "src/vector.c"
+M("c09-commit-before-check", "C09", "capacity committed before the realloc result is checked",
+  (VC, "    if (e != NULL) {\n        v->elem.base = e;\n        v->cap = sz;\n    }", "    if (e != NULL) {\n        v->elem.base = e;\n    }\n    v->cap = sz;"), also=["C16"])
+M("c09-at-gt", "C09", "at: > for >=",
+  (VC, "    if (i >= v->count) {\n        abort();", "    if (i > v->count) {\n        abort();"))
+M("c09-destroy-from-count", "C09", "destroy loop starts at count instead of --count",
+  (VC, "            xtor(__cstl_vector_at(v, --v->count), priv);", "            xtor(__cstl_vector_at(v, v->count--), priv);"))
+M("c09-scratch-cap-plus-1", "C09", "scratch slot at cap + 1 (sort)",
+  (VC, "        swap, __cstl_vector_at(v, v->cap),\n        algo);", "        swap, __cstl_vector_at(v, v->cap + 1),\n        algo);"))
+M("c09-no-scratch", "C09", "storage allocated without the scratch element",
+  (VC, "        e = realloc(v->elem.base, (sz + 1) * v->elem.size);", "        e = realloc(v->elem.base, (sz ? sz : 1) * v->elem.size);"))
+M("c09-overflow-unchecked", "C09", "the overflow check is removed again (the repaired defect)",
+  (VC, "    if (v->elem.size > 0 && sz < SIZE_MAX / v->elem.size) {", "    if (v->elem.size > 0) {"))
+M("c09-resize-no-abort", "C09", "resize does not abort when capacity is still short",
+  (VC, "    if (v->cap < sz) {", "    if (v->cap < sz && v->cap == 0) {"), also=["C16"])
+M("c09-cons-from-zero", "C09", "construct loop restarts from the old count minus one when growing from non-empty",
+  (VC, "        do {\n            xtor(__cstl_vector_at(v, v->count++), priv);\n        } while (v->count < sz);", "        if (v->count > 2) { v->count--; }\n        do {\n            xtor(__cstl_vector_at(v, v->count++), priv);\n        } while (v->count < sz);"))
+M("c09-clear-leak", "C09", "clear forgets to free when the vector is empty",
+  (VC, "    cstl_vector_resize(v, 0);\n    free(v->elem.base);", "    if (v->count > 0) {\n        cstl_vector_resize(v, 0);\n        free(v->elem.base);\n    }"))
+M("c09-shrink-below", "C09", "shrink_to_fit shrinks to count - 1 when the vector is large",
+  (VC, "        cstl_vector_set_capacity(v, v->count);", "        cstl_vector_set_capacity(v, v->count > 40 ? v->count - 1 : v->count);"))
+
 # ------------------------------------------------------- negative controls
+N("neg-vector-overallocate", ["C09", "C10"], "vector growth over-allocates",
+  (VC, "    if (sz > v->cap) {\n        cstl_vector_set_capacity(v, sz);\n    }", "    if (sz > v->cap) {\n        cstl_vector_set_capacity(v, sz < 1000 ? sz + sz / 2 + 1 : sz);\n    }"))
+N("neg-vector-no-shrink", ["C09", "C10"], "shrink_to_fit declines to shrink",
+  (VC, "    if (v->cap > v->count) {\n        cstl_vector_set_capacity(v, v->count);\n    }", "    (void)v;"))
+N("neg-map-null-hint", ["C08"], "the map always passes a NULL hint",
+  (MP, "            cstl_rbtree_insert(&map->t, node, p);", "            cstl_rbtree_insert(&map->t, node, NULL);"))
+N("neg-map-free-before-callback", ["C08", "C15"], "the map frees the node before invoking the user's clear callback (detached iterator)",
+  (MP, "    if (cmc->clr != NULL) {\n        cstl_map_iterator_t i;\n\n        cstl_map_iterator_init(cmc->map, &i, node);\n        i._ = NULL;\n\n        cmc->clr(&i, cmc->priv);\n    }\n\n    cstl_map_node_free(node);",
+   "    cstl_map_iterator_t i;\n    cstl_map_iterator_init(cmc->map, &i, node);\n    i._ = NULL;\n    cstl_map_node_free(node);\n    if (cmc->clr != NULL) {\n        cmc->clr(&i, cmc->priv);\n    }"))
 N("neg-hash-new-buckets-dirty", ["C03", "C04", "C19"], "newly added buckets are initialised dirty",
   (HS, "                h->bucket.at[i].cst = h->bucket.cst;\n            }", "                h->bucket.at[i].cst = !h->bucket.cst;\n            }"))
 N("neg-hash-load-double", ["C19"], "load computed in double precision",
